@@ -231,6 +231,13 @@ func (c *e2eCtx) newScenario(i int, r *rand.Rand, o proj.Opts, mkcfg func(r *ran
 	if s.newRev, err = proj.Commit(s.dir, s.newTree, 1700000100, "new"); err != nil {
 		return nil, err
 	}
+	// every other repository is packed (what a clone looks like)
+	if i%2 == 0 {
+		if _, err = proj.Git(s.dir, 0, "gc", "-q"); err != nil {
+			return nil, err
+		}
+		c.count("store:packed")
+	}
 	s.cfg = mkcfg(r, s.oldRev)
 	// one configuration in four is written by `goat init` itself from flags (the way users get it)
 	if i%4 == 1 && proj.InitConfig(c.goat, s.dir, s.cfg) {
